@@ -1,5 +1,7 @@
 import XsgModel.Proofs.Unique
 import XsgModel.Proofs.SubStruct
+import XsgModel.Proofs.Fragment
+import XsgModel.Proofs.SpecOf
 /-!
 # C06 — extending with further documents behaves like inferring from their union
 
@@ -177,6 +179,55 @@ theorem C06_substructure (H : List Doc) (h : historyOk H) (p : List Name) (ds : 
   obtain ⟨hms, hocc⟩ := hm.at_path hne p s hs
   exact extend_fold ds s _ hocc hms hds
 
+/-- the same, in the form the driver checks: the schema is what the executable specification computes -/
+theorem C06_substructure_spec (H : List Doc) (h : historyOk H) (p : List Name) (ds : List Doc) :
+    ∃ t, parseHistory (H.map Doc.events) = .ok t ∧
+      ∀ s, elemAt p t = some s → (∀ d ∈ ds, d.ok = true ∧ d.root.name = s.name) →
+        ∃ r, (ds.map Doc.events).foldl extendStep (Except.ok s) = .ok r ∧
+          r.abs = specOfDocs (occsAt p (H.map (·.root)) ++ ds.map (·.root)) := by
+  obtain ⟨t, ht, hm⟩ := parse_exact H h
+  refine ⟨t, ht, ?_⟩
+  intro s hs hds
+  have hne : H.map (·.root) ≠ [] := by
+    intro e; exact h.1 (List.map_eq_nil_iff.mp e)
+  obtain ⟨hms, hocc⟩ := hm.at_path hne p s hs
+  obtain ⟨r, hr, hmr, -⟩ := extend_fold ds s _ hocc hms hds
+  exact ⟨r, hr, matches_abs_eq_specOfDocs hmr (by simp [hocc])⟩
+
+/-- **C06 for inputs that repeat their root element** (the reader does not insist on a single root): two
+histories of such inputs with the same top-level elements give the same schema, however the elements are
+grouped into inputs. -/
+theorem C06_regroup (F F' : List Items) (k : Name) (h : fragmentsOk F k) (h' : fragmentsOk F' k)
+    (hset : ∀ o, o ∈ F.flatMap (·.named k) ↔ o ∈ F'.flatMap (·.named k)) :
+    ∃ t t', parseHistory (F.map fragEvents) = .ok t ∧ parseHistory (F'.map fragEvents) = .ok t' ∧ SchemaEq t t' := by
+  obtain ⟨t, ht, hm, -⟩ := parse_fragments F k h
+  obtain ⟨t', ht', hm', -⟩ := parse_fragments F' k h'
+  exact ⟨t, t', ht, ht', matches_unique hm hm' hset⟩
+
+/-- the schema after a history of such inputs is what the executable specification computes for all their
+top-level elements -/
+theorem C06_fragments_spec (F : List Items) (k : Name) (h : fragmentsOk F k) :
+    ∃ t, parseHistory (F.map fragEvents) = .ok t ∧ t.abs = specOfDocs (F.flatMap (·.named k)) := by
+  obtain ⟨t, ht, hm, -⟩ := parse_fragments F k h
+  refine ⟨t, ht, matches_abs_eq_specOfDocs hm ?_⟩
+  cases F with
+  | nil => exact absurd rfl h.1
+  | cons is F => simp [(h.2 is (by simp)).2.1]
+
+/-- in particular: documents supplied one by one, or concatenated into fewer inputs -/
+theorem C06_concat (H : List Doc) (h : historyOk H) (F : List Items) (k : Name) (hF : fragmentsOk F k)
+    (hset : ∀ o, o ∈ H.map (·.root) ↔ o ∈ F.flatMap (·.named k)) :
+    ∃ t t', parseHistory (H.map Doc.events) = .ok t ∧ parseHistory (F.map fragEvents) = .ok t' ∧ SchemaEq t t' := by
+  obtain ⟨t, ht, hm⟩ := parse_exact H h
+  obtain ⟨t', ht', hm', -⟩ := parse_fragments F k hF
+  exact ⟨t, t', ht, ht', matches_unique hm hm' hset⟩
+
+/-- a document is such an input -/
+theorem C06_doc_is_fragment (d : Doc) (h : d.ok = true) :
+    d.events = fragEvents d.items ∧ d.items.ok = true ∧ d.items.rootsNamed d.root.name ∧
+      d.items.named d.root.name = [d.root] :=
+  ⟨d.events_eq, d.items_ok h, d.items_rootsNamed h, by simp [d.items_named h]⟩
+
 /-- a failed extension reports an error rather than a (partial) tree -/
 theorem C06_error_no_partial (t : Elem) (evs : List Ev) (e : PErr) (h : extendStruct t evs = .error e) :
     ∀ t', extendStruct t evs ≠ .ok t' := by
@@ -192,5 +243,20 @@ example :
     (match parseHistory [d.events] with
      | .ok t => (elemAt [(cl!"b")] t).map (fun s => (s.standalone, s.count))
      | .error _ => none) = some (false, 2) := by decide
+
+/-- non-vacuity of `C06_regroup`: `<a><x/></a><a><y/></a>` as one input is a history in the sense of `fragmentsOk` -/
+example :
+    let a1 : Node := .mk (cl!"a") [] false (.elem (.mk (cl!"x") [] true .nil) .nil)
+    let a2 : Node := .mk (cl!"a") [] false (.elem (.mk (cl!"y") [] true .nil) .nil)
+    fragmentsOk [Items.elem a1 (.other (.elem a2 .nil))] (cl!"a") := by
+  intro a1 a2
+  refine ⟨by simp, ?_⟩
+  intro is his
+  simp only [List.mem_singleton] at his
+  subst his
+  refine ⟨by decide, by decide, ?_⟩
+  intro d hd
+  have : ¬ (cl!"a") = d := fun e => hd e.symm
+  simp [Items.named, Node.name, a1, a2, this]
 
 end Xsg
